@@ -168,6 +168,41 @@ def unstable_rule(fx, scope, value_marks=("value::JsValue", "gc::Gc<")):
     return out
 
 
+STATIC_EMITTERS = ("::compile_static_field_initializer", "::compile_static_private_field_initializer", "::compile_static_block")
+
+
+def static_order_rule(fx, scope, op_path, emitters=STATIC_EMITTERS, private_method="::compile_private_method"):
+    """[(fn, kind, ok, span, why)] for the function that compiles a class body"""
+    out = []
+    for p, f in sorted(fx.fns.items()):
+        if f.derived or f.closure or not scope(f):
+            continue
+        calls = list(f.calls())
+        sites = {e: [bi for bi, t in calls if (t[1].get("d") or "").endswith(e)] for e in emitters}
+        if not all(sites.values()):
+            continue
+        allsites = [b for bs in sites.values() for b in bs]
+        binds = [bi for bi, sp in op_aggs(f, op_path, "DeclareVar")]
+        pms = [bi for bi, t in calls if (t[1].get("d") or "").endswith(private_method)]
+        span = f.blocks[allsites[0]]["t"][6]
+        # (a) the class name is bound before any static element runs
+        late = [b for b in binds if any(b in f.reachable_from(s) for s in allsites)]
+        out.append((f, "binding-first", bool(binds) and not late, span,
+                    "a static initialiser or static block is emitted before the class name is declared: `class S { static x = 1; static r = S.x }` throws "
+                    "`S is not defined` (and `static inst = new S()`)"))
+        # (b) private methods are in place first
+        latep = [b for b in pms if any(b in f.reachable_from(s) for s in allsites)]
+        out.append((f, "private-methods-first", not latep, span,
+                    "private methods are defined after static elements have run: a static block or initialiser that calls `S.#m()` fails"))
+        # (c) one loop emits all three kinds, so they run in the order they are written
+        loops = L.natural_loops(f)
+        shared = any(all(any(b in body for b in sites[e]) for e in emitters) for h, body in loops)
+        out.append((f, "source-order", shared, span,
+                    "static fields, static private fields and static blocks are emitted by separate passes: `static #c = 1; static { S.#c }` runs the block "
+                    "before the field exists"))
+    return out
+
+
 def regexp_rule(fx, scope, matcher=None):
     out = []
     for p, f in sorted(fx.fns.items()):
@@ -251,6 +286,13 @@ def run(fx, ck, OP):
             ck.finding("R14.regexp-lastindex", "R14.regexp-lastindex/%s" % f.path, F.short_span(sp),
                        "`%s` runs the matcher on its receiver without touching `lastIndex`: a global or sticky regex starts from 0 every time "
                        "(`const re = /a/g; re.test('a'); re.test('a')` gave true, true)" % f.path)
+    # ---- R16 static elements of a class: after the class binding and the private methods, in source order
+    ck.rule("R16.static-elements-order", "static field initialisers, static private field initialisers and static blocks are emitted after the class-name binding and the "
+            "private methods, from one loop (source order)", floor=3)
+    for f, kind, ok, sp, why in static_order_rule(fx, comp, OP):
+        ck.instance("R16.static-elements-order", "%s: %s" % (f.path, kind), F.short_span(sp), ok=ok)
+        if not ok:
+            ck.finding("R16.static-elements-order", "R16.static-elements-order/%s/%s" % (f.path, kind), F.short_span(sp), "`%s`: %s" % (f.path, why))
     # ---- R15 numeric property names (shared with C15 R5): `{ 1e21: v }` and `o[1e21]` name the same property
     import numfmt
     ck.rule("R15.numeric-keys", "the compiler never spells a numeric literal (a property name) with Rust's f64::to_string(): only value::number_to_string agrees with the run-time ToString of computed keys", floor=0)
